@@ -334,6 +334,39 @@ def run(ctx):
         ctx.check(not early, "R9.3", "_eval:GeneratorExp:guard-loop-complete", "the guard loop can skip generators", loop or fn,
                   "every generator target is tested")
 
+    # ------------------------------------------------------------------ R9.5 namespace functions do not call into their arguments
+    ctx.rule("R9.5", "RecordDescriptor.getfields (the expression's `fields`) calls a method of its argument only when the argument is an instance of the package's own "
+                     "DynamicFieldtypeModule - never by duck typing on whatever object the expression supplies")
+    gf = ctx.anchor_func("flow.record.base.RecordDescriptor.getfields")
+    ctx.use(gf._module)
+    gcfg = CFG(gf)
+    gparam = func_params(gf)[1]
+    derived = {gparam}
+    for st in walk_no_nested(gf):
+        if isinstance(st, ast.Assign) and len(st.targets) == 1 and isinstance(st.targets[0], ast.Name) and isinstance(st.value, ast.Call) and call_name(st.value) == "getattr" \
+                and st.value.args and norm(st.value.args[0]) in derived:
+            derived.add(st.targets[0].id)
+    n_inv = 0
+    for c in calls_in(gf):
+        root = c.func
+        while isinstance(root, ast.Attribute):
+            root = root.value
+        via_getattr = isinstance(c.func, ast.Call) and call_name(c.func) == "getattr" and c.func.args and norm(c.func.args[0]) in derived
+        if not ((isinstance(root, ast.Name) and root.id in derived and (isinstance(c.func, ast.Attribute) or root.id != gparam)) or via_getattr):
+            continue
+        if isinstance(c.func, ast.Name) and c.func.id == gparam:
+            pass
+        n_inv += 1
+        nd = gcfg.header_node_for_expr(c) or gcfg.node_of(c)
+        from ..core import expr_conditions as _ec9
+
+        prem = logic.facts_as_premises(gcfg.facts_at(nd.id)) + list(_ec9(c))
+        typed = any(logic.implies(prem, logic.parse(f"isinstance({gparam}, {k})")) for k in ("DynamicFieldtypeModule",))
+        ctx.check(typed, "R9.5", f"RecordDescriptor.getfields:invokes:{norm(c)[:40]}", f"`{norm(c)}` calls into the caller-supplied argument without an isinstance({gparam}, DynamicFieldtypeModule) "
+                  f"test: `fields(r.x)` in an expression invokes a method of an arbitrary object", c, "only under isinstance(<arg>, DynamicFieldtypeModule)",
+                  key="R9.5:getfields:duck-typed-invocation")
+    ctx.floor("R9.5", "invocations of the argument in getfields", n_inv, 1)
+
     # ------------------------------------------------------------------ R9.4 dunder refusal before expression-named getattr
     ctx.rule("R9.4", "every getattr(obj, NAME[, default]) reachable from matches() whose NAME derives from the expression is "
                      "dominated by a refusal (raise / skip) of names starting with '__' (or '_')")
